@@ -178,7 +178,7 @@ Qed.
 
 Lemma step0_inv : forall nd o, node_inv nd -> node_inv (fst (step0 nd o)).
 Proof.
-  intros nd o H; pose proof H as [Hc Hs]; destruct o as [e tsok propok pre|n| |p| | |b|c t i|c t i content|c t i|c|o']; cbn; [| | | | | | | | | | |exact H].
+  intros nd o H; pose proof H as [Hc Hs]; destruct o as [e tsok propok pre|n| |p| | |b|c t i|c t i content|c t i|c|o'|bd]; cbn; [| | | | | | | | | | |exact H|exact H].
   - destruct (pre && prefilter (r_synced (n_cur nd)) e); [exact H|].
     destruct (negb tsok); [exact H|]. destruct (negb propok); [exact H|]. split; cbn; assumption.
   - destruct (Nat.min n (length (n_pending nd))) eqn:E; [exact H|]. apply commit_n_inv; exact H.
@@ -246,7 +246,7 @@ Lemma step0_log_ext : forall nd o, exists ext, n_log (fst (step0 nd o)) = n_log 
   n_cur (fst (step0 nd o)) = apply_log (n_cur nd) ext \/
   (n_log (fst (step0 nd o)) = n_log nd ++ ext /\ ext = [] /\ o = ORestart).
 Proof.
-  intros nd o; destruct o as [e tsok propok pre|n| |p| | |b|c t i|c t i content|c t i|c|o']; cbn; [| | | | | | | | | | |exists []; left; now rewrite app_nil_r].
+  intros nd o; destruct o as [e tsok propok pre|n| |p| | |b|c t i|c t i content|c t i|c|o'|bd]; cbn; [| | | | | | | | | | |exists []; left; now rewrite app_nil_r|exists []; left; now rewrite app_nil_r].
   - exists []. left. destruct (pre && prefilter (r_synced (n_cur nd)) e); [now rewrite app_nil_r|].
     destruct (negb tsok); [now rewrite app_nil_r|]. destruct (negb propok); now rewrite app_nil_r.
   - destruct (Nat.min n (length (n_pending nd))) eqn:E.
@@ -593,7 +593,7 @@ Qed.
 
 Lemma step0_tags : forall nd o, tags_ok nd -> tags_ok (fst (step0 nd o)).
 Proof.
-  intros nd o H; pose proof H as [Hl Hp]; destruct o as [e tsok propok pre|n| |p| | |b|c t i|c t i content|c t i|c|o']; cbn; [| | | | | | | | | | |exact H].
+  intros nd o H; pose proof H as [Hl Hp]; destruct o as [e tsok propok pre|n| |p| | |b|c t i|c t i content|c t i|c|o'|bd]; cbn; [| | | | | | | | | | |exact H|exact H].
   - destruct (pre && prefilter (r_synced (n_cur nd)) e); [exact H|].
     destruct (negb tsok); [exact H|]. destruct (negb propok); [exact H|]. split; cbn; [exact Hl|].
     apply Forall_app; split; [exact Hp|]. constructor; [exact I|constructor].
@@ -1123,7 +1123,7 @@ Lemma step_from : forall nd o ds,
   from_delivered nd ds -> from_delivered (fst (step nd o)) (ds ++ delivered [o]).
 Proof.
   intros nd o ds Hns H. pose proof (from_delivered_weaken nd ds (delivered [o]) H) as W.
-  destruct o as [x tsok propok pre|n| |p| | |b|c t i|c t i content|c t i|c|o']; try contradiction; cbn [step step0 delivered].
+  destruct o as [x tsok propok pre|n| |p| | |b|c t i|c t i content|c t i|c|o'|bd]; try contradiction; cbn [step step0 delivered].
   - destruct (pre && prefilter (r_synced (n_cur nd)) x); [exact W|].
     destruct (negb tsok); [exact W|]. destruct (negb propok); [exact W|]. unfold from_delivered; cbn.
     intros le He. rewrite app_assoc in He. apply in_app_or in He. destruct He as [He|[He|[]]].
@@ -1142,6 +1142,7 @@ Proof.
     apply commit_n_from. unfold from_delivered; cbn. intros le He. rewrite app_assoc in He. apply in_app_or in He. destruct He as [He|He].
     + apply W. exact He.
     + right. destruct (Hr le He) as [e [H1 H2]]. exists e; split; [exact H1|]. apply in_or_app; right. now rewrite app_nil_r.
+  - exact W.
   - exact W.
 Qed.
 
@@ -1170,3 +1171,81 @@ Proof.
     destruct (Hfd le (in_or_app _ _ _ (or_introl Hin))) as [[p ->]|[e [-> He]]]; [exact I|].
     cbn. cbn in Hcl. inversion Hcl. now apply Hd.
 Qed.
+
+(* ====================================================================================== *)
+(* ---------- an acknowledged ApplyRaftReqs call was proposed and applied ---------- *)
+
+Lemma prefilter_is_filter_pos : forall m e, 0 < s_index e -> prefilter m e = is_already_applied m e.
+Proof.
+  intros m e H; unfold prefilter, is_already_applied.
+  destruct (sm_get (s_cluster e) m) as [o|]; [reflexivity|]. lia.
+Qed.
+
+Lemma filter_mono : forall m m' e,
+  (forall c, ss_le (sm_get c m) (sm_get c m')) ->
+  is_already_applied m e = true -> is_already_applied m' e = true.
+Proof.
+  unfold is_already_applied; intros m m' e Hle H. specialize (Hle (s_cluster e)).
+  destruct (sm_get (s_cluster e) m) as [o|]; [|discriminate].
+  destruct (sm_get (s_cluster e) m') as [o'|]; cbn in Hle; [|contradiction]. lia.
+Qed.
+
+Lemma applied_is_covered : forall st e, 0 < s_index e ->
+  is_already_applied (r_synced (apply_entry st (LSync e))) e = true.
+Proof.
+  intros st e Hpos. cbn [apply_entry]. destruct (is_already_applied (r_synced st) e) eqn:F; [exact F|].
+  cbn [r_synced]. unfold is_already_applied.
+  rewrite postprocess_get_same by (destruct (s_index e =? 0) eqn:Z; [lia|now rewrite andb_false_r]).
+  cbn. lia.
+Qed.
+
+Lemma covered_through_log : forall l st e,
+  is_already_applied (r_synced st) e = true -> is_already_applied (r_synced (apply_log st l)) e = true.
+Proof.
+  intros l st e H. eapply filter_mono; [|exact H]. intro c. apply (apply_log_mono l st c).
+Qed.
+
+Lemma in_log_covered : forall l st e, 0 < s_index e -> In (LSync e) l ->
+  is_already_applied (r_synced (apply_log st l)) e = true.
+Proof.
+  induction l as [|le l IH]; intros st e Hpos Hin; [contradiction|].
+  rewrite apply_log_cons. destruct Hin as [->|Hin].
+  - apply covered_through_log. now apply applied_is_covered.
+  - now apply IH.
+Qed.
+
+Lemma rpc_collect_ok_in : forall m b e tsok,
+  snd (rpc_collect m b) = true -> In (e, tsok) b ->
+  prefilter m e = true \/ In (LSync e) (fst (rpc_collect m b)).
+Proof.
+  intros m b e tsok; induction b as [|[x tx] r IH]; intros Hok Hin; [contradiction|].
+  cbn in *. destruct (prefilter m x) eqn:P.
+  - destruct Hin as [E|Hin]; [inversion E; subst; now left|now apply IH].
+  - destruct (negb tx); [discriminate|].
+    destruct (rpc_collect m r) as [l ok] eqn:ER; cbn in *.
+    destruct Hin as [E|Hin]; [inversion E; subst; right; now left|].
+    destruct (IH Hok Hin) as [H|H]; [now left|right; now right].
+Qed.
+
+(* after an ApplyRaftReqs call that answered success (nothing else in flight), every entry of the batch is covered by
+   the recorded position of its cluster: it was filtered as already applied, or it was proposed, committed and applied.
+   A call that reaches a raft group that is not ready answers with an error and changes nothing. *)
+Theorem ack_implies_applied : forall nd b e tsok,
+  n_pending nd = [] -> snd (step nd (ORpc b)) = ROk -> In (e, tsok) b -> 0 < s_index e ->
+  is_already_applied (r_synced (n_cur (fst (step nd (ORpc b))))) e = true.
+Proof.
+  intros nd b e tsok Hp Hok Hin Hpos. cbn [step step0] in *.
+  destruct (rpc_collect (r_synced (n_cur nd)) b) as [l ok] eqn:ER. cbn [fst snd] in *.
+  destruct ok; [|discriminate].
+  assert (Hc : n_cur (commit_n (with_pending nd (n_pending nd ++ l)) (length (n_pending (with_pending nd (n_pending nd ++ l)))))
+               = apply_log (n_cur nd) l).
+  { cbn. rewrite Hp; cbn [app]. now rewrite firstn_all. }
+  rewrite Hc.
+  destruct (rpc_collect_ok_in (r_synced (n_cur nd)) b e tsok) as [P|I]; [now rewrite ER| exact Hin| |].
+  - apply covered_through_log. rewrite <- prefilter_is_filter_pos by exact Hpos. exact P.
+  - rewrite ER in I. cbn in I. now apply in_log_covered.
+Qed.
+
+Theorem not_ready_is_refused : forall nd b,
+  step nd (ORpcDown b) = (nd, RErr).
+Proof. reflexivity. Qed.
